@@ -518,7 +518,9 @@ func (s btState) clone() btState {
 }
 
 // siteOf maps a *big.Int-typed value to its abstract object.
-func siteOf(v ssa.Value) ssa.Value {
+func siteOf(v ssa.Value) ssa.Value { return siteOfSeen(v, map[ssa.Value]bool{}) }
+
+func siteOfSeen(v ssa.Value, seen map[ssa.Value]bool) ssa.Value {
 	for i := 0; i < 50; i++ {
 		switch x := v.(type) {
 		case *ssa.Call:
@@ -531,9 +533,16 @@ func siteOf(v ssa.Value) ssa.Value {
 			v = x.X
 			continue
 		case *ssa.Phi:
+			if seen[x] {
+				return x // a cycle of phis (loop-carried object): the phi itself stands for the object
+			}
+			seen[x] = true
 			var s ssa.Value
 			for _, e := range x.Edges {
-				se := siteOf(e)
+				se := siteOfSeen(e, seen)
+				if se == ssa.Value(x) {
+					continue // the loop-carried edge
+				}
 				if s == nil {
 					s = se
 				} else if s != se {
